@@ -59,6 +59,7 @@ class Ctx:
     self.tlc_cfgs = []
     self.coverage_actions = {}
     self.violations = []  # unlisted
+    self.viol_tags = {}
     self.known_hits = {}  # finding id -> count
     self.notes = []
     self.exhaustive = None
@@ -100,11 +101,13 @@ class Ctx:
       if all(tags.get(a) == b for a, b in k['match'].items()):
         self.known_hits[k['id']] = self.known_hits.get(k['id'], 0) + 1
         return 'known'
+    tk = json.dumps(tags, sort_keys=True)
+    self.viol_tags[tk] = self.viol_tags.get(tk, 0) + 1
     body = {'property': self.pid, 'what': what, 'tags': tags, 'case': _jsonable(case),
             'tier': self.tier, 'seed': self.seed}
     h = hashlib.sha1(json.dumps(body, sort_keys=True).encode()).hexdigest()[:12]
     path = os.path.join(REPLAYS, f'{self.pid}-{h}.json')
-    if len(self.violations) < 20:
+    if self.viol_tags[tk] <= 3 and len(self.violations) < 60:
       os.makedirs(REPLAYS, exist_ok=True)
       with open(path, 'w') as f:
         json.dump(body, f, indent=1, sort_keys=True)
@@ -137,6 +140,9 @@ class Ctx:
     if self.known_hits:
       cov['known_findings_reproduced'] = self.known_hits
     cov.update(_jsonable(self.extra))
+    if self.viol_tags:
+      cov['violations_by_tag'] = self.viol_tags
+      print('violations by tag:', json.dumps(self.viol_tags), flush=True)
     ev = {
         'property_id': self.pid, 'tier': self.tier, 'seed': self.seed, 'level': self.level,
         'coverage': cov, 'assumptions': self.assumptions,
